@@ -220,6 +220,10 @@ ResultFromHistory ==
 (* what is on disk: one file per stored object, at <root>/<bucket>/<name>,   *)
 (* different objects in different files, each inside its bucket's directory  *)
 Disk == UNION {{PathOf(b, n) : n \in Stored(b)} : b \in Buckets}
+(* the directories below the storage root: one per bucket, and those the     *)
+(* stored objects need -- a read, a listing or a failed copy leaves none     *)
+DiskDirs == {<<b>> : b \in Buckets} \cup
+            UNION {UNION {{SubSeq(PathOf(b, n), 1, k) : k \in 1..Len(n)} : n \in Stored(b)} : b \in Buckets}
 Confined == /\ \A b \in Buckets : \A n \in Stored(b) : Ordinary(n) /\ Inside(n)
             /\ \A b1, b2 \in Buckets : \A n1 \in Stored(b1), n2 \in Stored(b2) :
                    PathOf(b1, n1) = PathOf(b2, n2) => (b1 = b2 /\ n1 = n2)
